@@ -425,6 +425,8 @@ def transition_lemmas(ctx, fo):
     from ..terms import Norm, NotNumeric
     from ..loops import for_loops
     rep, f = ctx.rep, ctx.facts
+    # nest form: a parser state kept in a struct (`RowParser { row, sign, operator }` behind `&mut self`) is the set of its fields
+    fo = f.nest_form(fo, yields=False)
     cfg = CFG(fo)
     tr = Tracer(fo)
     loops = for_loops(fo, cfg, tr)
@@ -462,6 +464,8 @@ def transition_lemmas(ctx, fo):
                 ty = fo.local_ty(l)
                 scalar = ty in ('f64', 'bool', 'char', 'u8', 'u32', 'u64', 'usize', 'i32', 'i64') or \
                     ty.startswith('std::option::Option<') or f.norm(ty) in f.adts
+                if ty == 'bool' and fo.local_name(l) is None and not fo.locals[l].get('sroa'):
+                    continue        # a compiler-generated drop flag
                 if scalar or pw_in:
                     state.append(l)
         # a matrix written through index_mut inside the loop
@@ -535,26 +539,65 @@ def transition_lemmas(ctx, fo):
                     return n.rf(a).equals(n.rf(b))
                 except (NotNumeric, TypeError):
                     return a == b
+
+            def is_num_(v):
+                return isinstance(v, tuple) and v[0] == 'num'
             by = {}
             for nm, o, dl in steps:
                 by.setdefault(nm, []).append((o, dl))
             # ---- roles, read off the steps that define them ----
             sign_p = op_p = x_p = y_p = None
+            sign_enum = None        # the pending sign as an enum: {'neg': variant index after '-', 'num': {variant index: +-1}}
             ms = by.get('minus', [])
             if len(ms) == 1 and len(ms[0][1]) == 1 and same(list(ms[0][1].values())[0], NUM(-1)):
                 sign_p = list(ms[0][1])[0]
+            elif len(ms) == 1 and len(ms[0][1]) == 1:
+                mv = list(ms[0][1].values())[0]
+                if isinstance(mv, tuple) and mv[0] == 'struct' and mv[2] is not None and not mv[3]:
+                    sign_p = list(ms[0][1])[0]
+                    sign_enum = {'neg': mv[2][1], 'num': {}}
+
+            def sign_variant(o):
+                # which variant of the sign enum this path is for (from its condition on the discriminant of the sign place)
+                for c in o.pc:
+                    if c[0] == 'switch' and c[1] == ('app', 'discr', (SYM(sign_p),)):
+                        return c[2]
+                return None
             sl = by.get('slash', [])
             if len(sl) >= 1 and all(len(dl) == 1 for _, dl in sl) and len({list(dl)[0] for _, dl in sl}) == 1:
                 op_p = list(sl[0][1])[0]
             for nm in ('x', 'y'):
                 xs = by.get(nm, [])
-                if len(xs) == 1 and sign_p is not None:
+                if len(xs) == 1 and sign_p is not None and sign_enum is None:
                     others = [k for k in xs[0][1] if k != sign_p]
                     if len(others) == 1:
                         if nm == 'x':
                             x_p = others[0]
                         else:
                             y_p = others[0]
+                elif sign_enum is not None and xs:
+                    # one path per sign variant: the cell receives the number the variant stands for
+                    cells_, ok_ = set(), True
+                    for o2, dl2 in xs:
+                        k2 = sign_variant(o2)
+                        others = [k for k in dl2 if k != sign_p]
+                        if k2 is None or len(others) != 1 or not (is_num_(dl2[others[0]]) and abs(dl2[others[0]][1]) == 1):
+                            ok_ = False
+                            break
+                        cells_.add(others[0])
+                        if sign_enum['num'].setdefault(k2, int(dl2[others[0]][1])) != int(dl2[others[0]][1]):
+                            ok_ = False
+                    if ok_ and len(cells_) == 1:
+                        if nm == 'x':
+                            x_p = cells_.pop()
+                        else:
+                            y_p = cells_.pop()
+            if sign_enum is not None:
+                nm_ = sign_enum['num']
+                if not (len(nm_) == 2 and nm_.get(sign_enum['neg']) == -1 and sorted(nm_.values()) == [-1, 1]):
+                    x_p = y_p = None        # '-' does not select the variant that x / y store as -1
+                else:
+                    sign_enum['pos'] = [k for k, v in nm_.items() if v == 1][0]
             okr = None not in (sign_p, op_p, x_p, y_p) and len({sign_p, op_p, x_p, y_p}) == 4
             if not rep.check(okr, 'R3', 'parser-state-roles', where(fo, some_t),
                              'pending sign %s, pending operator %s, x cell %s, y cell %s' % (sign_p, op_p, x_p, y_p),
@@ -563,20 +606,36 @@ def transition_lemmas(ctx, fo):
                              'undecidable-shape' if not ms or not sl or 'x' not in by or 'y' not in by else 'violation'):
                 return
             S = SYM(sign_p)
+
+            def is_pos(v):
+                # the sign place holds "+": the number 1, or the variant that stands for +1
+                if sign_enum is None:
+                    return same(v, NUM(1))
+                return isinstance(v, tuple) and v[0] == 'struct' and v[2] is not None and v[2][1] == sign_enum['pos']
+
+            def is_neg(v):
+                if sign_enum is None:
+                    return same(v, NUM(-1))
+                return isinstance(v, tuple) and v[0] == 'struct' and v[2] is not None and v[2][1] == sign_enum['neg']
             for nm, o, dl in steps:
                 if nm == 'digit' or nm is None:
                     continue
                 seen.add(nm)
                 if nm in ('blank', 'plus'):
-                    ok = not dl or (nm == 'plus' and set(dl) == {sign_p} and same(dl[sign_p], NUM(1)))
+                    ok = not dl or (nm == 'plus' and set(dl) == {sign_p} and is_pos(dl[sign_p]))
                     why = 'a %s changes the parser state (%s): "x - 1/2" and "x -1/2" would parse differently although spaces ' \
                           'are optional' % ('blank' if nm == 'blank' else '\'+\'', sorted(dl))
                 elif nm == 'minus':
-                    ok = set(dl) == {sign_p} and same(dl[sign_p], NUM(-1))
+                    ok = set(dl) == {sign_p} and is_neg(dl[sign_p])
                     why = '\'-\' does not simply make the pending sign negative (changes %s)' % sorted(dl)
                 elif nm in ('x', 'y'):
                     cell = x_p if nm == 'x' else y_p
-                    ok = set(dl) == {cell, sign_p} and dl[cell] == S and same(dl[sign_p], NUM(1))
+                    if sign_enum is None:
+                        ok = set(dl) == {cell, sign_p} and dl[cell] == S and same(dl[sign_p], NUM(1))
+                    else:
+                        k2 = sign_variant(o)
+                        ok = set(dl) == {cell, sign_p} and k2 in sign_enum['num'] and same(dl[cell], NUM(sign_enum['num'][k2])) and \
+                            is_pos(dl[sign_p])
                     if cell.startswith('M['):
                         ok = ok and cell == 'M[%d,%d]' % (row, 0 if nm == 'x' else 1)
                     why = '\'%s\' does not store the pending sign in its cell and consume it: changes %s' % (nm, {k: str(v)[:40] for k, v in dl.items()})
@@ -605,21 +664,34 @@ def transition_lemmas(ctx, fo):
                     rep.fail('R3', 'digit-step:one-constant-cell', where(fo, some_t), 'digits write two different places: %s, %s' % (const_p, cp))
                     continue
                 C = n.atom(const_p)
-                s_ = n.atom(sign_p)
+                if sign_enum is None:
+                    s_ = n.atom(sign_p)
+                else:
+                    k2 = sign_variant(o)
+                    if k2 not in sign_enum['num']:
+                        rep.fail('R3', 'digit-step:form', where(fo, some_t), 'a digit step does not depend on the pending sign',
+                                 'undecidable-shape')
+                        continue
+                    s_ = n.const(sign_enum['num'][k2])
                 # is the operator pending on this path?  (conditions on the operator place)
                 op_conds = [c for c in o.pc if c[0] in ('switch', 'switch-not', 'cond') and op_p.split('.')[0] in repr(c[1])]
                 is_none = any(c[0] == 'switch' and c[2] == 0 for c in op_conds) or \
                     any(c[0] == 'cond' and c[2] is False and op_p in repr(c[1]) and c[1][0] == 'sym' for c in op_conds)
                 from ..poly import subst
                 try:
-                    v_first = subst(subst(got, sign_p, n.const(1)), const_p, n.const(0))
-                    v_div = subst(subst(got, sign_p, n.const(1)), const_p, n.const(1))
+                    if sign_enum is None:
+                        v_first = subst(subst(got, sign_p, n.const(1)), const_p, n.const(0))
+                        v_div = subst(subst(got, sign_p, n.const(1)), const_p, n.const(1))
+                    else:
+                        # the value this path would compute for the "+" variant: the sign enters as a factor +-1
+                        v_first = subst(got, const_p, n.const(0)) * s_
+                        v_div = subst(got, const_p, n.const(1)) * s_
                 except Exception:
                     continue
                 digit_only = lambda rf: all(a not in (sign_p, const_p) and not a.startswith('v') for a in rf.atoms())     # noqa: E731
                 n_digit += 1
                 if got.equals(s_ * v_first) and digit_only(v_first) and not v_first.is_zero():
-                    ok = is_none and same(dl.get(sign_p, S), NUM(1))
+                    ok = is_none and is_pos(dl.get(sign_p, S))
                     rep.check(ok, 'R3', 'digit-step:first-digit', where(fo, some_t), 'constant := sign * digit; sign consumed',
                               'constant := sign*digit happens while an operator is pending, or the sign is not consumed')
                 elif (got.equals(s_ * C * v_div) or got.equals(C * v_div)) and digit_only(v_div):
